@@ -512,10 +512,9 @@ def getitem(it, o, k):
                     for x in reversed(ks[:-1]):
                         val = z3.If(k.t == z3.StringVal(x), z3.IntVal(o[x]), val)
                     return SInt(val)
-                for kk in o:
-                    r = eq(it, kk, k)
-                    if r is True or (r is not False and it.truth(r)):
-                        return o[kk]
+                hit = dict_lookup_symbolic(it, o, k)
+                if hit is not _NOHIT:
+                    return hit
                 _raise(KeyError(k))
             raise OutOfSubset(f"symbolic subscript {k!r} of {type(o).__name__}")
         k = k2
@@ -523,6 +522,24 @@ def getitem(it, o, k):
         return _demaybe(it, o[k], k)
     except Exception as e:
         _raise(e)
+
+
+_NOHIT = object()
+
+
+def dict_lookup_symbolic(it, o, k):
+    """value stored under a key equal to the symbolic key k (entries stored under symbolic keys, latest first, then the concrete keys), or _NOHIT"""
+    for kk, vv in reversed(o.get(SYMKEYS, [])):
+        r = eq(it, kk, k)
+        if r is True or (r is not False and it.truth(r)):
+            return vv
+    for kk in o:
+        if kk is SYMKEYS:
+            continue
+        r = eq(it, kk, k)
+        if r is True or (r is not False and it.truth(r)):
+            return o[kk]
+    return _NOHIT
 
 
 def setitem(it, o, k, v):
